@@ -411,11 +411,23 @@ func (r *DocumentHandler) ResolveDocument(shortOrLongFormDID string,
 	// if document was not found on the blockchain and initial value has been provided resolve using initial value;
 	// a request for a particular version can only be answered from anchored operations (and the error for an unknown
 	// version echoes the caller's version string, which may itself contain "not found")
+	var transformErr *transformError
+	if errors.As(err, &transformErr) {
+		// the DID has been resolved from anchored operations; that its document cannot be transformed (the message may
+		// well contain "not found", e.g. for a key type without context) does not make the initial state current again
+		return nil, transformErr.error
+	}
+
 	if createReq != nil && strings.Contains(err.Error(), "not found") && !isVersionRequested(opts...) {
 		return r.resolveRequestWithInitialState(uniquePortion, shortOrLongFormDID, createReq, pv)
 	}
 
 	return nil, err
+}
+
+// transformError is an error of the document transformer (as opposed to an error of the resolution itself).
+type transformError struct {
+	error
 }
 
 func isVersionRequested(opts ...document.ResolutionOption) bool {
@@ -465,7 +477,12 @@ func (r *DocumentHandler) resolveRequestWithID(shortFormDid, uniquePortion strin
 		ti = GetTransformationInfoForPublished(r.namespace, shortFormDid, uniquePortion, internalResult)
 	}
 
-	return pv.DocumentTransformer().TransformDocument(internalResult, ti)
+	result, err := pv.DocumentTransformer().TransformDocument(internalResult, ti)
+	if err != nil {
+		return nil, &transformError{err}
+	}
+
+	return result, nil
 }
 
 // GetHint returns hint from id.
